@@ -223,7 +223,7 @@ fn main() {
         });
     }
     // ---- 200..: random longer names + invariance + wrappers -------------------
-    let nbatches = if thorough { 200 } else { 30 };
+    let nbatches = if thorough { 3000 } else { 100 };
     for bidx in 0..nbatches {
         let idx = 200 + bidx;
         let mut rng = run.rng(idx, 0);
@@ -282,7 +282,7 @@ fn main() {
         }
     }
     // ---- 2000..: cipher, random large buffers ---------------------------------
-    let nlarge = if thorough { 400 } else { 60 };
+    let nlarge = if thorough { 6000 } else { 300 };
     for i in 0..nlarge {
         let idx = 2000 + i;
         let mut rng = run.rng(idx, 2);
@@ -302,7 +302,7 @@ fn main() {
         });
     }
     // ---- 3000..: Jenkins pair (HET/BET) -----------------------------------------
-    let njen = if thorough { 100 } else { 20 };
+    let njen = if thorough { 1500 } else { 60 };
     for i in 0..njen {
         let idx = 3000 + i;
         let mut rng = run.rng(idx, 3);
